@@ -652,11 +652,11 @@ pub fn c13_case(data: &[u8]) -> c13::Case {
 
 pub fn c15_case(data: &[u8]) -> c15::RandCase {
     let mut d = D::new(data);
-    let labs = [c15::A6, c15::A6, c15::A6, c15::B6, c15::B6, c15::A3, c15::A3, c15::B3, Lab::Broadcast, Lab::ReUse];
+    let labs = [c15::A6, c15::A6, c15::A6, c15::B6, c15::B6, c15::A3, c15::A3, c15::B3, Lab::Broadcast, Lab::ReUse, Lab::Six([6, 1, 0, 0, 0, 1]), Lab::Six([0, 0, 0, 0xAA, 0xBB, 0xCC]), Lab::Three([2, 0, 0])];
     let ops = d.vec(1, 80, |d| match d.pick(19) {
-        0..=7 => c15::Op::Send { lab: labs[d.pick(10)], mode: d.range(0, 2) as u8 },
-        8..=10 => c15::Op::Burst { lab: labs[d.pick(10)], n: if d.pick(3) == 0 { d.range(200, 299) as u16 } else { d.range(2, 7) as u16 } },
-        11..=13 => c15::Op::Fail { lab: labs[d.pick(10)], long: d.bool() },
+        0..=7 => c15::Op::Send { lab: labs[d.pick(13)], mode: d.range(0, 2) as u8 },
+        8..=10 => c15::Op::Burst { lab: labs[d.pick(13)], n: if d.pick(3) == 0 { d.range(200, 299) as u16 } else { d.range(2, 7) as u16 } },
+        11..=13 => c15::Op::Fail { lab: labs[d.pick(13)], long: d.bool() },
         14 => c15::Op::Reset,
         15 => c15::Op::Disable,
         16 => c15::Op::Enable,
